@@ -151,11 +151,240 @@ Proof. vm_compute. repeat split. Qed.
     hold for what the code says now. A change of one of these functions that is not an equivalent rewrite breaks the
     proof obligation here. *)
 From Hoot Require Import Gen.
-From Hoot.proofs Require Import Gen_equiv.
+From Hoot.proofs Require Import Gen_equiv_body.
 Theorem c18_code_calculate_max_input : forall n, gen_calculate_max_input n = calculate_max_input n.
 Proof. exact gen_calculate_max_input_eq. Qed.
 Theorem c18_code_max_chunk_fit : forall a m, gen_max_chunk_fit a m = max_chunk_fit a m.
 Proof. exact gen_max_chunk_fit_eq. Qed.
+
+(* ================================================================== strengthening (review 3) *)
+(** Proofs: proofs/C18_reach.v.
+
+    READING OF THE PROPERTY FOR A LENGTH-DELIMITED BODY.  "An input of the advertised maximum size for n is
+    consumed completely" holds for a sized body exactly on the domain the writer ACCEPTS: an input longer than
+    what is left of the announced Content-Length is not written partially, it is REFUSED
+    ([c18_sized_refused]: [Err BodyLargerThanContentLength] for every capacity; an [Err] carries neither a
+    call nor a count nor output, i.e. nothing is consumed, nothing emitted and the caller keeps the call it
+    had -- that is property C04's clause).  The unrestricted reading is therefore false
+    ([c18_sized_unrestricted_refuted], a flow reached by running the model).  The property's quantifier
+    ("every n ...; chunked and length-delimited bodies") ranges over buffer lengths and the two framings, not over
+    inputs exceeding the announced length, so the supported reading is the restricted one: "within the announced
+    length".  Everything below states that hypothesis explicitly ([n <= lft]). *)
+From Hoot Require Import Httparse Parser Url Script.
+From Hoot.proofs Require Import C04_proofs C17_proofs C18_reach.
+
+(** One sized write through the public entry point, on the accepted domain and beyond it. *)
+Theorem c18_sized_accepted : forall c lft input cap,
+  sized_body c lft false -> len input <= lft ->
+  call_write_body c input cap =
+    let n := N.min cap (len input) in
+    Ok (set_writer c {| w_mode := SSized (lft - n); w_ended := if lft - n =? 0 then true else false |},
+        n, take n input).
+Proof. exact sized_accept. Qed.
+
+Theorem c18_sized_refused : forall c lft input cap,
+  sized_body c lft false -> lft < len input ->
+  call_write_body c input cap = Err BodyLargerThanContentLength.
+Proof. exact sized_refusal. Qed.
+
+(** The headline for a sized body at [Call<WithBody>::write]: the advertised size is the buffer length n
+    ([c18_advertised]); an input of that size within the announced length is consumed completely, forwarded
+    verbatim, and the remaining count goes down by n (finished exactly when it reaches 0). *)
+Theorem c18_sized_fits_call : forall c lft input n,
+  sized_body c lft false -> len input = n -> n <= lft ->
+  exists c' e, call_write_body c input n = Ok (c', n, input) /\
+               sized_body c' (lft - n) e /\ (e = true <-> lft - n = 0).
+Proof. exact sized_fits_call. Qed.
+
+(** At the property's observation points [Flow<SendBody>::calculate_max_input] / [Flow<SendBody>::write],
+    both framings: whatever size m the flow advertises for an n-byte buffer, an input of m bytes is consumed
+    completely by one write into n bytes. *)
+Theorem c18_fits_flow_chunked : forall f n m input,
+  i_holder f = HWithBody -> chunked_body (i_call f) false ->
+  send_body_max_input f n = Ok m -> len input = m -> 0 < len input ->
+  exists out, send_body_write f input n = Ok (f, len input, out) /\ len out <= n.
+Proof. exact fits_flow_chunked. Qed.
+
+Theorem c18_fits_flow_sized : forall f lft n m input,
+  i_holder f = HWithBody -> sized_body (i_call f) lft false ->
+  send_body_max_input f n = Ok m -> len input = m -> m <= lft ->
+  m = n /\
+  exists f' e, send_body_write f input n = Ok (f', len input, input) /\
+               i_holder f' = HWithBody /\ sized_body (i_call f') (lft - n) e /\ (e = true <-> lft - n = 0).
+Proof. exact fits_flow_sized. Qed.
+
+Theorem c18_flow_sized_refused : forall f lft input cap,
+  i_holder f = HWithBody -> sized_body (i_call f) lft false -> lft < len input ->
+  send_body_write f input cap = Err BodyLargerThanContentLength.
+Proof. exact flow_sized_refusal. Qed.
+
+(** REACHABILITY of the hypotheses [chunked_body _ false] / [sized_body _ n false].
+    [body_state_of c0 c]: which of the two holds of [c], read off the request of the fresh call [c0]
+    ([has_chunked_te], [cls]: effective transfer-encoding / content-length fields, see C17/C02). *)
+Theorem c18_body_state_def : forall c0 c,
+  body_state_of c0 c =
+    if has_chunked_te (c_req c0) then chunked_body c false
+    else match cls (c_req c0) with
+         | [] => chunked_body c false
+         | v :: _ => sized_body c (dec_value v) false
+         end.
+Proof. reflexivity. Qed.
+
+(** [f0]: a fresh with-body flow (holder WithBody, writer still the constructor's chunked default) that request
+    analysis accepts ([call_invalid = false], [sendable]: C17).  After ANY sequence [caps] of head writes, if
+    [send_request_proceed] answers SendBody, the flow it hands over is the flow it was given, its request is
+    the analysed request of C02/C17, and its call is in the chunked / sized body state, not finished. *)
+Theorem c18_send_body_reached : forall f0 caps f',
+  fresh_flow f0 -> i_holder f0 = HWithBody -> c_writer (i_call f0) = new_chunked ->
+  call_invalid (i_call f0) = false -> sendable (i_call f0) ->
+  send_request_proceed (fw_flow (fwrun f0 caps)) = Ok (Some (TSendBody, f')) ->
+  f' = fw_flow (fwrun f0 caps) /\ i_holder f' = HWithBody /\
+  c_req (i_call f') = c_req (analysed_call (i_call f0)) /\
+  body_state_of (i_call f0) (i_call f').
+Proof. exact send_body_reached. Qed.
+
+(** The same through Await100 (Expect: 100-continue): any number of [try_read_100] calls on any windows
+    [ws], then [await_100_proceed] answering SendBody. *)
+Theorem c18_send_body_reached_100 : forall f0 caps f1 ws f',
+  fresh_flow f0 -> i_holder f0 = HWithBody -> c_writer (i_call f0) = new_chunked ->
+  call_invalid (i_call f0) = false -> sendable (i_call f0) ->
+  send_request_proceed (fw_flow (fwrun f0 caps)) = Ok (Some (TAwait100, f1)) ->
+  await_100_proceed (fold_left (fun g w => fst (try_read_100 g w)) ws f1) = Ok (TSendBody, f') ->
+  i_holder f' = HWithBody /\
+  c_req (i_call f') = c_req (analysed_call (i_call f0)) /\
+  body_state_of (i_call f0) (i_call f').
+Proof. exact send_body_reached_100. Qed.
+
+Theorem c18_body_state_cases : forall c0 c,
+  body_state_of c0 c -> chunked_body c false \/ exists n, sized_body c n false.
+Proof. exact body_state_cases. Qed.
+
+(** Where such flows come from: [Flow::new] on a method that takes a body; [send_body_despite_method] on any
+    other fresh flow; adding headers keeps the flow fresh. *)
+Theorem c18_flow_new_with_body : forall r f0,
+  flow_new r = Ok f0 -> need_request_body (rq_method r) = true ->
+  fresh_flow f0 /\ i_holder f0 = HWithBody /\ c_writer (i_call f0) = new_chunked /\
+  c_req (i_call f0) = am_new r /\ c_skip (i_call f0) = false.
+Proof. exact flow_new_with_body. Qed.
+
+Theorem c18_despite_with_body : forall f0 f1,
+  fresh_flow f0 -> i_holder f0 = HWithoutBody -> send_body_despite_method f0 = Ok f1 ->
+  fresh_flow f1 /\ i_holder f1 = HWithBody /\ c_writer (i_call f1) = new_chunked /\
+  c_req (i_call f1) = c_req (i_call f0) /\ c_skip (i_call f1) = true.
+Proof. exact despite_with_body. Qed.
+
+Theorem c18_header_keeps_fresh : forall f k v f',
+  fresh_flow f -> prepare_header f k v = Ok f' ->
+  fresh_flow f' /\ i_holder f' = i_holder f /\ c_writer (i_call f') = c_writer (i_call f) /\
+  c_skip (i_call f') = c_skip (i_call f).
+Proof. exact header_keeps_fresh. Qed.
+
+(** Single-call API ([Call::with_body], [c0 = call_new r new_chunked]): while the head is being written a
+    [Call<WithBody>::write] consumes no input whatever is offered, and the call it returns is still in the
+    head or is the analysed call in the body phase, whose state is again [body_state_of]. *)
+Theorem c18_call_head_step : forall c0 c input cap c' n out,
+  fresh c0 -> call_invalid c0 = false -> sendable c0 ->
+  in_head c0 c -> call_write_body c input cap = Ok (c', n, out) ->
+  n = 0 /\ (in_head c0 c' \/ at_body c0 c').
+Proof. exact head_write_step. Qed.
+
+Theorem c18_call_at_body : forall c0 c,
+  at_body c0 c -> c_writer c0 = new_chunked -> body_state_of c0 c.
+Proof. exact at_body_state. Qed.
+
+Theorem c18_head_defs : forall c0 c,
+  (in_head c0 c <-> c = c0 \/ exists p, is_prelude p = true /\ c = set_phase (analysed_call c0) p) /\
+  (at_body c0 c <-> c = set_phase (analysed_call c0) PBody).
+Proof. intros; split; reflexivity. Qed.
+
+(** Examples REACHED BY RUNNING THE MODEL (no hand-built records): a POST through the Script operations
+    new / proceed / write_head 30 (request line only) / write_head 1000 / proceed. *)
+Definition ex18_uri : uri := {| u_scheme := s2b "http"; u_auth := s2b "a.test"; u_pq := s2b "/up" |}.
+Definition ex18_post (hs : list header) : request :=
+  {| rq_method := POST; rq_version := V11; rq_uri := ex18_uri; rq_headers := hs |}.
+Definition ex18_ops (hs : list header) : list op :=
+  [ONew (ex18_post hs); OProceed; OWriteHead 30; OWriteHead 1000; OProceed].
+
+(** No framing header: chunked.  10548 bytes of room advertise 10532 bytes; all of them are consumed by one
+    [Flow<SendBody>::write] (two chunks, 10547 bytes out) and the flow is unchanged. *)
+Example c18_reached_chunked :
+  match s_obj (run_ops s_init (ex18_ops [])) with
+  | ObFlow TSendBody f =>
+      i_holder f = HWithBody /\ chunked_body (i_call f) false /\
+      send_body_max_input f 10548 = Ok 10532 /\
+      (let input := repeat 97 (N.to_nat 10532) in
+       match send_body_write f input 10548 with
+       | Ok (f', used, out) => f' = f /\ used = 10532 /\ len out = 10547
+       | _ => False
+       end)
+  | _ => False
+  end.
+Proof. vm_compute. repeat split. Qed.
+
+(** Content-Length: 5 -- sized with 5 left; a 4-byte buffer advertises 4 and 4 bytes are consumed and
+    forwarded verbatim. *)
+Example c18_reached_sized :
+  match s_obj (run_ops s_init (ex18_ops [(s2b "content-length", s2b "5")])) with
+  | ObFlow TSendBody f =>
+      i_holder f = HWithBody /\ sized_body (i_call f) 5 false /\
+      send_body_max_input f 4 = Ok 4 /\
+      match send_body_write f (s2b "abcd") 4 with
+      | Ok (f', used, out) => used = 4 /\ out = s2b "abcd" /\ sized_body (i_call f') 1 false
+      | _ => False
+      end
+  | _ => False
+  end.
+Proof. vm_compute. repeat split. Qed.
+
+(** The unrestricted reading refuted on that flow: a 10-byte buffer advertises 10, but 10 bytes are more than
+    the 5 the request announced: refused, nothing consumed. *)
+Theorem c18_sized_unrestricted_refuted :
+  exists f n input,
+    s_obj (run_ops s_init (ex18_ops [(s2b "content-length", s2b "5")])) = ObFlow TSendBody f /\
+    send_body_max_input f n = Ok (len input) /\
+    send_body_write f input n = Err BodyLargerThanContentLength.
+Proof.
+  eexists. exists 10, (s2b "0123456789"). split; [vm_compute; reflexivity|]. split; vm_compute; reflexivity.
+Qed.
+
+(** The hypotheses of [c18_send_body_reached] hold for the flow [Flow::new] returns for that request and the
+    head writes of the script, and the conclusion is what the script reached. *)
+Example c18_reached_nonvacuous :
+  match flow_new (ex18_post [(s2b "content-length", s2b "5")]) with
+  | Ok f0 =>
+      fresh_flow f0 /\ i_holder f0 = HWithBody /\ c_writer (i_call f0) = new_chunked /\
+      call_invalid (i_call f0) = false /\ sendable (i_call f0) /\
+      has_chunked_te (c_req (i_call f0)) = false /\ cls (c_req (i_call f0)) = [s2b "5"] /\
+      dec_value (s2b "5") = 5 /\
+      fw_out (fwrun f0 [30; 1000]) =
+        s2b "POST /up HTTP/1.1" ++ CRLF ++ s2b "host: a.test" ++ CRLF ++ s2b "content-length: 5" ++ CRLF ++ CRLF /\
+      exists f', send_request_proceed (fw_flow (fwrun f0 [30; 1000])) = Ok (Some (TSendBody, f')) /\
+                 s_obj (run_ops s_init (ex18_ops [(s2b "content-length", s2b "5")])) = ObFlow TSendBody f'
+  | _ => False
+  end.
+Proof.
+  vm_compute. repeat split; auto; try discriminate. eexists. split; reflexivity.
+Qed.
+
+(** Through Expect: 100-continue and a 100 response as well. *)
+Example c18_reached_100 :
+  match s_obj (run_ops s_init
+          [ONew (ex18_post [(s2b "expect", s2b "100-continue"); (s2b "content-length", s2b "7")]); OProceed;
+           OWriteHead 1000; OProceed; ORawTry100 (s2b "HTTP/1.1 100 Continue" ++ CRLF ++ CRLF); OProceed]) with
+  | ObFlow TSendBody f => i_holder f = HWithBody /\ sized_body (i_call f) 7 false
+  | _ => False
+  end.
+Proof. vm_compute. repeat split. Qed.
+
+(** Link to property C09: its flow invariant for the SendBody state ([C09_inv.Inv TSendBody], established by
+    [c09_history] for every flow a Script history holds in SendBody) implies the state predicates used here, up to
+    the finished flag (the invariant does not record whether the body has been finished already). *)
+From Hoot.proofs Require C09_inv C18_inv.
+Theorem c18_inv_send_body : forall f,
+  C09_inv.Inv TSendBody f ->
+  i_holder f = HWithBody /\
+  exists e, chunked_body (i_call f) e \/ exists n, sized_body (i_call f) n e.
+Proof. exact C18_inv.inv_send_body_state. Qed.
 
 Print Assumptions c18_hexlen.
 Print Assumptions c18_fit_cases.
@@ -175,3 +404,25 @@ Print Assumptions c18_advertised.
 Print Assumptions c18_nonvacuous.
 Print Assumptions c18_code_calculate_max_input.
 Print Assumptions c18_code_max_chunk_fit.
+Print Assumptions c18_sized_accepted.
+Print Assumptions c18_sized_refused.
+Print Assumptions c18_sized_fits_call.
+Print Assumptions c18_fits_flow_chunked.
+Print Assumptions c18_fits_flow_sized.
+Print Assumptions c18_flow_sized_refused.
+Print Assumptions c18_body_state_def.
+Print Assumptions c18_send_body_reached.
+Print Assumptions c18_send_body_reached_100.
+Print Assumptions c18_body_state_cases.
+Print Assumptions c18_flow_new_with_body.
+Print Assumptions c18_despite_with_body.
+Print Assumptions c18_header_keeps_fresh.
+Print Assumptions c18_call_head_step.
+Print Assumptions c18_call_at_body.
+Print Assumptions c18_head_defs.
+Print Assumptions c18_reached_chunked.
+Print Assumptions c18_reached_sized.
+Print Assumptions c18_sized_unrestricted_refuted.
+Print Assumptions c18_reached_nonvacuous.
+Print Assumptions c18_reached_100.
+Print Assumptions c18_inv_send_body.
